@@ -1,5 +1,6 @@
 import Lattigo.Props.C01Words
 import Lattigo.Props.C01NTT
+import Lattigo.Props.C01Ring
 /-!
 # C01 — RNS ring arithmetic equals exact arithmetic in Z_Q[X]/(X^N+1)
 
@@ -8,5 +9,9 @@ Property theorems live in
   lane kernels, all about the definitions REGENERATED from /repo/ring by tools/go2lean;
 * `Lattigo.Props.C01NTT` — range invariant and semantics of the lazy NTT model (when present it is
   imported below).
+* `Lattigo.Props.C01Ring` — the abstract layer: `RPoly` (canonical RNS polynomials, the carrier the
+  scheme-level models of C03/C04/C14/C16/C20 are executed on) IS the commutative ring
+  Π_i Z_{q_i}[X]/(X^N+1), and the word-level NTT/Montgomery kernels implement its operations
+  (`refine_mul`, `words_ring`, `words_poly_ring`).
 This module collects them so that `lake build Lattigo.Props.C01` checks all of C01.
 -/
